@@ -75,6 +75,10 @@ def run(ctx):
     ctx.sample({"type": events[50]["ty"], "variant": events[50]["case"]["variant"], "value": work[50][0]["val"]})
     hdr = {"schema": jsontree.schema_for_tla(msgev.world()["schema"])}
     ctx.validate("Trace_Json", events, header=hdr, shard=1500, weight=lambda e: 1 + len(str(e["tree"])) // 2000)
+    # values reached through histories (objects filled / changed in place, parses, copies): after every call to_dict (both casings)
+    # and to_json are read back by from_dict / from_json as the value the object then has
+    from .. import hist
+    hist.run_histories(ctx, ["TScal", "TRep", "TMapV", "TMix", "TOne", "TOpt", "Node", "TWkt"], 400 if quick else 12000, 8, "inplace", judge_dict=True)
 
 
 def redrive(ev):
